@@ -113,6 +113,8 @@ type Action struct {
 	Idx    int      `json:"idx,omitempty"`    // append: series index; close: query index
 	Points []Sample `json:"pts,omitempty"`    // append
 	Fall   bool     `json:"fall,omitempty"`   // run on engine with fallback enabled
+	// QLookback: per-query lookback delta in ms (QueryOpts); 0 = no options, -1 = empty options
+	QLookback int64 `json:"qlb,omitempty"`
 }
 
 // Case is one generated test case. Step==0 means an instant query at Start.
